@@ -144,3 +144,132 @@ pub assume_specification [ str::to_lowercase ] (a: &str) -> (r: String) ensures 
 pub assume_specification [ str::to_uppercase ] (a: &str) -> (r: String) ensures r@ == upper_of(a@);
 pub assume_specification [ str::to_ascii_lowercase ] (a: &str) -> (r: String) ensures r@ == lower_of(a@);
 } // verus!
+// ---- further operators (all panic on overflow / underflow / zero divisor = abort: partial-correctness contracts, §4.3)
+verus! {
+impl MulSpecImpl<Uint128> for Uint128 {
+    open spec fn obeys_mul_spec() -> bool { true }
+    open spec fn mul_req(self, rhs: Uint128) -> bool { true }
+    open spec fn mul_spec(self, rhs: Uint128) -> Uint128 { Uint128((self.0 * rhs.0) as u128) }
+}
+impl DivSpecImpl<Uint128> for Uint128 {
+    open spec fn obeys_div_spec() -> bool { true }
+    open spec fn div_req(self, rhs: Uint128) -> bool { true }
+    open spec fn div_spec(self, rhs: Uint128) -> Uint128 { Uint128(if rhs.0 == 0 { 0 } else { self.0 / rhs.0 }) }
+}
+impl RemSpecImpl<Uint128> for Uint128 {
+    open spec fn obeys_rem_spec() -> bool { true }
+    open spec fn rem_req(self, rhs: Uint128) -> bool { true }
+    open spec fn rem_spec(self, rhs: Uint128) -> Uint128 { Uint128(if rhs.0 == 0 { 0 } else { self.0 % rhs.0 }) }
+}
+impl core::ops::Rem<Uint128> for Uint128 {
+    type Output = Uint128;
+    #[verifier::external_body]
+    fn rem(self, o: Uint128) -> (r: Uint128) ensures o.0 != 0 { unimplemented!() }
+}
+impl SubAssignSpecImpl<Uint128> for Uint128 {
+    open spec fn obeys_sub_assign_spec() -> bool { true }
+    open spec fn sub_assign_req(&self, rhs: Uint128) -> bool { true }
+    open spec fn sub_assign_spec(&self, rhs: Uint128) -> &Uint128 { &Uint128((self.0 - rhs.0) as u128) }
+}
+impl MulAssignSpecImpl<Uint128> for Uint128 {
+    open spec fn obeys_mul_assign_spec() -> bool { true }
+    open spec fn mul_assign_req(&self, rhs: Uint128) -> bool { true }
+    open spec fn mul_assign_spec(&self, rhs: Uint128) -> &Uint128 { &Uint128((self.0 * rhs.0) as u128) }
+}
+impl core::ops::MulAssign<Uint128> for Uint128 {
+    #[verifier::external_body]
+    fn mul_assign(&mut self, o: Uint128) ensures old(self).0 * o.0 <= u128::MAX { unimplemented!() }
+}
+impl Uint128 {
+    pub fn saturating_mul(self, o: Uint128) -> (r: Uint128)
+        ensures r.0 == (if self.0 * o.0 <= u128::MAX { (self.0 * o.0) as u128 } else { u128::MAX })
+    { Uint128(self.0.saturating_mul(o.0)) }
+    pub fn abs_diff(self, o: Uint128) -> (r: Uint128)
+        ensures r.0 == (if self.0 >= o.0 { self.0 - o.0 } else { o.0 - self.0 })
+    { Uint128(self.0.abs_diff(o.0)) }
+    pub fn checked_rem(self, o: Uint128) -> (r: Result<Uint128, DivideByZeroError>)
+        ensures o.0 != 0 ==> r is Ok && r->Ok_0.0 == self.0 % o.0, o.0 == 0 ==> r is Err
+    { if o.0 == 0 { Err(DivideByZeroError { k: 0 }) } else { Ok(Uint128(self.0 % o.0)) } }
+    pub fn min_of(a: Uint128, b: Uint128) -> (r: Uint128) ensures r.0 == (if a.0 <= b.0 { a.0 } else { b.0 }) { if a.0 <= b.0 { a } else { b } }
+}
+// Uint64 arithmetic
+impl AddSpecImpl<Uint64> for Uint64 {
+    open spec fn obeys_add_spec() -> bool { true }
+    open spec fn add_req(self, rhs: Uint64) -> bool { true }
+    open spec fn add_spec(self, rhs: Uint64) -> Uint64 { Uint64((self.0 + rhs.0) as u64) }
+}
+impl core::ops::Add<Uint64> for Uint64 {
+    type Output = Uint64;
+    #[verifier::external_body]
+    fn add(self, rhs: Uint64) -> (r: Uint64) ensures self.0 + rhs.0 <= u64::MAX { unimplemented!() }
+}
+impl SubSpecImpl<Uint64> for Uint64 {
+    open spec fn obeys_sub_spec() -> bool { true }
+    open spec fn sub_req(self, rhs: Uint64) -> bool { true }
+    open spec fn sub_spec(self, rhs: Uint64) -> Uint64 { Uint64((self.0 - rhs.0) as u64) }
+}
+impl core::ops::Sub<Uint64> for Uint64 {
+    type Output = Uint64;
+    #[verifier::external_body]
+    fn sub(self, rhs: Uint64) -> (r: Uint64) ensures self.0 >= rhs.0 { unimplemented!() }
+}
+impl MulSpecImpl<Uint64> for Uint64 {
+    open spec fn obeys_mul_spec() -> bool { true }
+    open spec fn mul_req(self, rhs: Uint64) -> bool { true }
+    open spec fn mul_spec(self, rhs: Uint64) -> Uint64 { Uint64((self.0 * rhs.0) as u64) }
+}
+impl core::ops::Mul<Uint64> for Uint64 {
+    type Output = Uint64;
+    #[verifier::external_body]
+    fn mul(self, rhs: Uint64) -> (r: Uint64) ensures self.0 * rhs.0 <= u64::MAX { unimplemented!() }
+}
+impl Timestamp {
+    pub fn subsec_nanos(&self) -> (r: u64) ensures r == self.0.0 % 1_000_000_000 { self.0.0 % 1_000_000_000 }
+}
+// Addr: `String == Addr`, `as_bytes` (the derived `Ord` is in std_adapters.rs, next to `str_cmp`)
+impl PartialEqSpecImpl<Addr> for String { open spec fn obeys_eq_spec() -> bool { true } open spec fn eq_spec(&self, o: &Addr) -> bool { self@ == o@ } }
+impl PartialEq<Addr> for String { #[verifier::external_body] fn eq(&self, o: &Addr) -> (r: bool) { unimplemented!() } }
+impl Addr {
+    #[verifier::external_body]
+    pub fn as_bytes(&self) -> (r: &[u8]) ensures r@ == utf8(self@) { unimplemented!() }
+}
+// ---- core::option / core::cmp / core::mem, complete contracts
+pub assume_specification<T> [ Option::<Option<T>>::flatten ] (a: Option<Option<T>>) -> (r: Option<T>)
+    ensures r == (match a { Some(x) => x, None => None::<T> });
+pub assume_specification<T, F: FnOnce() -> Option<T>> [ Option::<T>::or_else ] (a: Option<T>, f: F) -> (r: Option<T>)
+    requires a is None ==> f.requires(())
+    ensures a is Some ==> r == a, a is None ==> f.ensures((), r);
+pub assume_specification<T, U, D: FnOnce() -> U, F: FnOnce(T) -> U> [ Option::<T>::map_or_else ] (a: Option<T>, default: D, f: F) -> (r: U)
+    requires a is None ==> default.requires(()), a is Some ==> f.requires((a->Some_0,))
+    ensures a is None ==> default.ensures((), r), a is Some ==> f.ensures((a->Some_0,), r);
+pub assume_specification<T, F: FnOnce(T) -> bool> [ Option::<T>::is_none_or ] (a: Option<T>, f: F) -> (r: bool)
+    requires a is Some ==> f.requires((a->Some_0,))
+    ensures a is None ==> r, a is Some ==> f.ensures((a->Some_0,), r);
+pub assume_specification<T: Default> [ core::mem::take ] (dest: &mut T) -> (r: T)
+    ensures r == *old(dest), call_ensures(T::default, (), *final(dest));
+pub assume_specification [ String::as_bytes ] (s: &String) -> (r: &[u8])
+    ensures r@ == utf8(s@);
+pub assume_specification [ u64::pow ] (a: u64, e: u32) -> (r: u64)
+    ensures vstd::arithmetic::power::pow(a as int, e as nat) <= u64::MAX, r == vstd::arithmetic::power::pow(a as int, e as nat);
+pub assume_specification [ u128::pow ] (a: u128, e: u32) -> (r: u128)
+    ensures vstd::arithmetic::power::pow(a as int, e as nat) <= u128::MAX, r == vstd::arithmetic::power::pow(a as int, e as nat);
+pub assume_specification [ u64::div_ceil ] (a: u64, b: u64) -> (r: u64)
+    ensures b != 0, r == (a + b - 1) / (b as int);
+pub assume_specification [ u128::div_ceil ] (a: u128, b: u128) -> (r: u128)
+    ensures b != 0, r == (a + b - 1) / (b as int);
+pub assume_specification<T: Ord> [ core::cmp::min ] (a: T, b: T) -> (r: T)
+    ensures <T as vstd::std_specs::cmp::OrdSpec>::obeys_cmp_spec() ==> r == (if b.cmp_spec(&a) == core::cmp::Ordering::Less { b } else { a });
+pub assume_specification<T> [ <[T]>::reverse ] (v: &mut [T])
+    ensures final(v)@ == old(v)@.reverse();
+pub assume_specification<T: Clone> [ <[T]>::to_vec ] (v: &[T]) -> (r: Vec<T>)
+    ensures r@.len() == v@.len(), forall|i: int| 0 <= i < v@.len() ==> call_ensures(T::clone, (&#[trigger] v@[i],), r@[i]);
+impl Uint128 {
+    #[verifier::external_body]
+    pub fn pow(self, e: u32) -> (r: Uint128)
+        ensures vstd::arithmetic::power::pow(self.0 as int, e as nat) <= u128::MAX, r.0 == vstd::arithmetic::power::pow(self.0 as int, e as nat)
+    { unimplemented!() }
+    pub fn wrapping_add(self, o: Uint128) -> (r: Uint128)
+        ensures r.0 == (if self.0 + o.0 <= u128::MAX { (self.0 + o.0) as u128 } else { (self.0 + o.0 - 0x1_0000_0000_0000_0000_0000_0000_0000_0000) as u128 })
+    { Uint128(self.0.wrapping_add(o.0)) }
+}
+} // verus!
